@@ -132,7 +132,7 @@ PROPS = {
         "assumptions": ["decision points exist only at (rewritten) lock operations and file-system calls; code between two such points is atomic to the scheduler"],
     },
     "C13": {
-        "level": "exploration", "quick": 4000, "thorough": 200000, "batch": 5, "single_timeout": 150, "race": True, "race_div": 20, "race_free": True, "race_free_gomaxprocs": 4,
+        "level": "exploration", "quick": 8000, "thorough": 200000, "batch": 5, "single_timeout": 150, "race": True, "race_div": 40, "race_free": True, "race_free_gomaxprocs": 4,
         "rule": ("2-4 client tasks (reinforce one shared node, merge distinct metadata keys into it, KV set/get/delete with unique values on 3 keys, "
                  "add/delete own vectors, link/unlink, search, get), an admin task (SaveSnapshot, RewriteAOF, vacuum, refine, compress, index drop/"
                  "create on a second index), an event subscriber with buffer 0-2 that never reads (half of the runs), a task that calls Close (once or "
@@ -277,6 +277,7 @@ PROPS = {
 
 # Extensions made after the seeded-change rounds (DESIGN.md 10.6): appended to the rule texts above.
 RULE_ADDENDA = {
+    "C18": "Two fresh slots touched for the first time by two goroutines at once (as the workers of a parallel batch insert do); the arena state saved WHILE the mutator allocates must be a state the arena was in (no slot at or beyond the saved frontier, none held twice, none both live and free).",
     "C04": "On memory-enabled indexes generated metadata may carry a _created_at supplied by the owner: add, batch add and import all store it unchanged.",
     "C01": "Generator scripts: a drop directly after a snapshot, re-creation of a dropped name with another precision or dimension and immediate use; unlink prefers edges that exist, with the inverse they were created with.",
     "C02": "After recovery the repaired directory keeps being used: something recovered is deleted, then RewriteAOF or SaveSnapshot runs, then restart (nothing a crash left behind may leak into the new files). Generator scripts as C01, plus delete-then-vacuum with no flush in between and an image right after every forced maintenance.",
@@ -286,9 +287,9 @@ RULE_ADDENDA = {
     "C08": "Values that change type but not printed form (1 <-> \"1\"), vectors without any metadata. Numeric values and range literals include ones a float32 cannot hold (0.1, 0.3, 2^24+1, Unix timestamps): comparisons are judged in float64.",
     "C09": "Documents that analyse to zero tokens; hybrid queries with k from 1 to 50 (a document outside the vector leg's k nearest may be fused with vector share 0; a tie at that boundary may go either way); score tolerance by precision class.",
     "C11": "Unlink prefers existing edges with their inverse; half of the runs restart / snapshot / compact before the query phase.",
-    "C12": "Half of the runs give the index a graph retention and run a graph vacuum before the deletes (and among the admin operations). A third of the runs unlink some edges again before anything is deleted, half of them physically (hard unlink, the non-default option).",
-    "C13": "Text-indexed metadata and hybrid searches; reinforcement of nodes other tasks delete, with the oracle that an id whose delete was acknowledged is gone for the metadata indexes (VFilter) too; a third of the runs have an automatic snapshot due at every housekeeping tick. Every client adds and deletes two shared ids (a third of the runs: all clients start by adding the same new id): adds and deletes of an id must have a serial order in which an add succeeds exactly on an absent id (porcupine), and the id never holds the data of an add that was refused, live or after restart. 'delq' deletes an own vector and looks at once (VFilter, filtered VSearch, VGet) without letting the background cascade run first. A third of the runs give the hot index an auto-link rule (inserts link themselves while snapshots are requested). After the run has settled: every id listed once by the cursor and readable, the entry point exists, and - when the index holds at most 2*M nodes, C07's exact regime - every live vector is found by its own value.",
-    "C14": "Bursts of 1100-2600 writes (more than the log writer's 1000-entry buffer) followed at once by Flush or Sync. Writers also insert batches of 1-48 vectors with metadata (every item and its metadata is one acknowledged write).",
+    "C12": "Half of the runs give the index a graph retention and run a graph vacuum before the deletes (and among the admin operations). A third of the runs unlink some edges again before anything is deleted, half of them physically (hard unlink, the non-default option). Crash images are also taken in the middle of a log write (the image ends inside a frame, typically inside one of the cascade's own unlink records).",
+    "C13": "Text-indexed metadata and hybrid searches; reinforcement of nodes other tasks delete, with the oracle that an id whose delete was acknowledged is gone for the metadata indexes (VFilter) too; a third of the runs have an automatic snapshot due at every housekeeping tick. Every client adds and deletes two shared ids (a third of the runs: all clients start by adding the same new id): adds and deletes of an id must have a serial order in which an add succeeds exactly on an absent id (porcupine), and the id never holds the data of an add that was refused, live or after restart. 'delq' deletes an own vector and looks at once (VFilter, filtered VSearch, VGet) without letting the background cascade run first. A third of the runs give the hot index an auto-link rule (inserts link themselves while snapshots are requested). After the run has settled: every id listed once by the cursor and readable, the entry point exists, and - when the index holds at most 2*M nodes, C07's exact regime - every live vector is found by its own value. Further: metadata updates and reinforcements of the shared ids; overlapping batch inserts over a small shared pool of ids, their ids in an order of their own (a refused batch leaves none of its items behind, live or after restart); in a quarter of the runs every client's first insert goes to a fresh int8 index (read-back within one rounding step of the stored value, clipped to the trained range); a 'vacuum storm' in a quarter of the runs; a third of the unlinks are physical; after the run the outgoing and incoming views of every edge agree (live and after restart) and every edge that was linked and never unlinked is still there after the restart.",
+    "C14": "Bursts of 1100-2600 writes (more than the log writer's 1000-entry buffer) followed at once by Flush or Sync. Writers also insert batches of 1-48 vectors with metadata (every item and its metadata is one acknowledged write). Crash images are also taken in the MIDDLE of multi-step operations (before a rename, a remove, a write; up to 3 per run): each is recovered, every key it holds is rewritten, a snapshot taken and the engine restarted - the new values must be read (nothing a dead process left half-done may be replayed over them).",
     "C15": "Memories are also inserted through VAddBatch and VImport (supplied _created_at must be stored unchanged); _access_count seeded as float64, int or int64; a quarter of the runs leave the global half-life at 0 (layers only / documented 7-day default) with creation times spread over weeks. _access_count may be negative (-1..-4; only the bounds 0 <= factor <= 1 and 'never NaN' are judged for ebbinghaus there). Half of the memories carry a text field; hybrid queries (text + vector, k=2, alpha 0.2) must not score any memory above its decay factor.",
     "C16": "Path-addressed routes (/config, /maintenance, /auto-links) carry a decoy index_name in the body; graph routes address nodes as <other index>::v1; link targets whose id names the index make cross-namespace graph reads visible. Restart history 'crash': a token is revoked and the data directory is copied the moment the 200 arrives (no simulated time passes); the server restarted on the copy must reject the token.",
     "C17": "A quarter of the runs use a memory-enabled (time-decaying) forbidden-prompt index whose entries are 30 days old: the firewall compares distances, not decayed scores. A quarter of the chat steps are followed at once by a second request (no time for the asynchronous cache save in between; a save that may not have happened yet makes the next lookup undetermined, nothing else); deny patterns that open with a group or an inline flag, with mixed-case prompts.",
